@@ -77,6 +77,9 @@ impl KStr {
         }
     }
 }
+pub fn mk_part(kind: u8, a: usize, a_ok: bool, b: usize, b_ok: bool) -> KStr {
+    KStr { kind, a, a_ok, b, b_ok, atom: false }
+}
 /// carrier for the `Vec<usize>` the loop body pushes into (fixed capacity; overflow fails the harness)
 pub struct KVec {
     buf: [usize; 8],
@@ -170,7 +173,7 @@ fn c42_kx_cpulist_tail_sorted_set() {
 const W: usize = 4; // widest range explored (loop bound); ids themselves are unbounded
 
 /// the set a part denotes: junk and malformed ranges denote nothing
-fn denotes(p: &KStr, id: usize) -> bool {
+pub fn denotes(p: &KStr, id: usize) -> bool {
     match p.kind {
         1 => p.a_ok && id == p.a,
         2 => p.a_ok && p.b_ok && p.a <= id && id <= p.b,
@@ -220,6 +223,106 @@ fn c42_kx_cpulist_part_denotation() {
     kani::cover!(added == W);
     kani::cover!(kind == 2 && added == 0 && part.a_ok && part.b_ok);
     kani::cover!(kind == 1 && added == 1);
+}
+
+// ---------------------------------------------------------------- whole function on carriers
+pub mod whole {
+    use super::{KFromUsize, KStr};
+    pub const CAP: usize = 8;
+    /// carrier for `Vec<usize>`: fixed capacity, std's sort_unstable / dedup modelled
+    pub struct Vec<T> {
+        pub buf: [T; CAP],
+        pub len: usize,
+    }
+    impl<T: Copy + Default + Ord> Vec<T> {
+        pub fn new() -> Self {
+            Vec { buf: [T::default(); CAP], len: 0 }
+        }
+        pub fn push(&mut self, v: T) {
+            assert!(self.len < CAP, "VERIF carrier capacity (unsupported)");
+            self.buf[self.len] = v;
+            self.len += 1;
+        }
+        pub fn sort_unstable(&mut self) {
+            let mut i = 1;
+            while i < self.len {
+                let mut j = i;
+                while j > 0 && self.buf[j - 1] > self.buf[j] {
+                    self.buf.swap(j - 1, j);
+                    j -= 1;
+                }
+                i += 1;
+            }
+        }
+        pub fn dedup(&mut self) {
+            if self.len == 0 {
+                return;
+            }
+            let mut w = 1;
+            let mut r = 1;
+            while r < self.len {
+                if self.buf[r] != self.buf[w - 1] {
+                    self.buf[w] = self.buf[r];
+                    w += 1;
+                }
+                r += 1;
+            }
+            self.len = w;
+        }
+    }
+    /// a cpulist seen as its comma-separated parts
+    pub struct KSrc {
+        pub parts: [KStr; 2],
+        pub n: usize,
+    }
+    impl KSrc {
+        pub fn trim(&self) -> &KSrc {
+            self
+        }
+        pub fn split(&self, c: char) -> impl Iterator<Item = KStr> + '_ {
+            assert!(c == ',');
+            self.parts[..self.n].iter().copied()
+        }
+    }
+    include!("/verif/kani/gen/kx_parse_cpulist_whole.rs");
+
+    const U: usize = 6;
+    fn any_part() -> KStr {
+        let kind: u8 = kani::any();
+        kani::assume(kind <= 2);
+        let (a, b): (usize, usize) = (kani::any(), kani::any());
+        kani::assume(a < U && b < U && (b < a || b - a < 3));
+        super::mk_part(kind, a, kani::any(), b, kani::any())
+    }
+    /// the whole function: for every list of <= 2 parts the result is strictly increasing and
+    /// holds exactly the ids some part denotes. B(<= 2 parts, ranges <= 3 wide, ids < 6).
+    #[kani::proof]
+    #[kani::unwind(9)]
+    fn c42_kx_parse_cpulist_whole() {
+        let n: usize = kani::any();
+        kani::assume(n <= 2);
+        let src = KSrc { parts: [any_part(), any_part()], n };
+        let out = kx_parse_cpulist_whole(&src);
+        let mut k = 1;
+        while k < out.len {
+            assert!(out.buf[k - 1] < out.buf[k]);
+            k += 1;
+        }
+        let mut id = 0;
+        while id < U {
+            let want = (n >= 1 && super::denotes(&src.parts[0], id)) || (n >= 2 && super::denotes(&src.parts[1], id));
+            let mut got = false;
+            let mut r = 0;
+            while r < out.len {
+                got = got || out.buf[r] == id;
+                r += 1;
+            }
+            assert!(got == want);
+            id += 1;
+        }
+        kani::cover!(out.len >= 4);
+        kani::cover!(n == 2 && out.len == 0);
+    }
 }
 
 include!("/verif/kani/gen/playback_execution_topology.rs");
